@@ -671,8 +671,53 @@ impl TypeChecker {
             }
         }
 
+        // Calls of user-defined functions: report scalar arguments that cannot match the declared parameter type.
+        // (Deliberately narrow: `types_compatible` does not model trait-typed parameters or numeric widening yet,
+        // so only clear mismatches between `int` / `float` / `bool` / `str` are reported; arity is not checked because
+        // `FunctionInfo` does not record default values.)
+        let fn_params = if let Expr::Ident(name) = &callee.node {
+            self.symbols
+                .lookup(name)
+                .and_then(|id| self.symbols.get(id))
+                .and_then(|sym| match &sym.kind {
+                    SymbolKind::Function(info) => Some(info.params.clone()),
+                    _ => None,
+                })
+        } else {
+            None
+        };
+
         let callee_ty = self.check_expr(callee);
-        self.check_call_args(args);
+        let arg_types = self.check_call_arg_types(args);
+        if let Some(params) = fn_params {
+            let is_scalar = |t: &ResolvedType| {
+                matches!(
+                    t,
+                    ResolvedType::Int | ResolvedType::Float | ResolvedType::Bool | ResolvedType::Str
+                )
+            };
+            let mut next_positional = 0usize;
+            for (arg, arg_ty) in args.iter().zip(arg_types.iter()) {
+                let (param, expr) = match arg {
+                    CallArg::Positional(e) => {
+                        let p = params.get(next_positional);
+                        next_positional += 1;
+                        (p, e)
+                    }
+                    CallArg::Named(name, e) => (params.iter().find(|(n, _)| n == name), e),
+                };
+                if let Some((_, param_ty)) = param {
+                    let widening = matches!((arg_ty, param_ty), (ResolvedType::Int, ResolvedType::Float));
+                    if is_scalar(param_ty) && is_scalar(arg_ty) && arg_ty != param_ty && !widening {
+                        self.errors.push(errors::type_mismatch(
+                            &param_ty.to_string(),
+                            &arg_ty.to_string(),
+                            expr.span,
+                        ));
+                    }
+                }
+            }
+        }
 
         match callee_ty {
             ResolvedType::Function(_, ret) => *ret,
